@@ -1,6 +1,8 @@
 package dials
 
 import (
+	"reflect"
+	"errors"
 	"context"
 	"strconv"
 
@@ -211,6 +213,12 @@ func HarnessC08BlockedCallback() {
 	}
 	e := src.wa.BlockingReportNewValue(ctx, mkValue(src.t, hval{setA: true, a: 1000}))
 	zzverif.Assert(e == nil && d.View().A == 1000, "C08 after a full callback queue and source errors a new config was not installed")
+	// a rejected blocking report is answered with its error although the callback queue is full
+	rej := src.wa.BlockingReportNewValue(ctx, mkValue(src.t, hval{setA: true, a: 1001, setBad: true, bad: true}))
+	zzverif.Assert(rej != nil && errors.Is(rej, errInvalid), "C07 a rejected blocking report did not return the Verify error while the callback queue is full")
+	zzverif.Assert(d.View().A == 1000, "C04 a rejected update changed the view")
+	e = src.wa.BlockingReportNewValue(ctx, mkValue(src.t, hval{setA: true, a: 1002}))
+	zzverif.Assert(e == nil && d.View().A == 1002, "C08 after a rejected report with a full callback queue new configs are no longer installed (monitor wedged)")
 	zzverif.Reached("c08-blocked-end")
 }
 
@@ -348,4 +356,67 @@ func HarnessC08PendingUnregister() {
 		zzverif.Assert(zzverif.NumParked() == 0, "C08 background goroutines are still alive after shutdown: "+zzverif.ParkedDesc())
 	}
 	zzverif.Reached("c08-pending-unreg-end")
+}
+
+// hcfgL has a user-declared pointer leaf: a source value carrying a pointer of another type for it
+// cannot be stacked (compose reports "type *string is not assignable to *int").
+type hcfgL struct {
+	A     int64
+	Limit *int
+}
+
+// HarnessC08StackError: a watcher reports a value that cannot be stacked onto the config type: the
+// reporter gets an error, OnWatchedError hears about it (it is withheld only while the delay is
+// in force *and* the suppress option is set), nothing panics, the view is unchanged and later
+// reports are still served.
+func HarnessC08StackError() {
+	flags := zzverif.Choose("flags", 4)
+	delay, suppress := flags&1 != 0, flags&2 != 0
+	lim := 5
+	def := hcfgL{Limit: &lim}
+	var st *Type
+	var swa WatchArgs
+	src := &c03ssrc{mk: func(t *Type) reflect.Value { return reflect.New(t.Type()).Elem() }}
+	ctx, cancel := context.WithCancel(context.Background())
+	defer cancel()
+	nErr, nNew := 0, 0
+	p := Params[hcfgL]{
+		OnNewConfig:    func(context.Context, *hcfgL, *hcfgL) { nNew++ },
+		OnWatchedError: func(context.Context, error, *hcfgL, *hcfgL) { nErr++ },
+	}
+	p.DelayInitialVerification = delay
+	p.CallGlobalCallbacksAfterVerificationEnabled = suppress
+	d, err := p.Config(ctx, &def, src)
+	if err != nil {
+		zzverif.Fail("C04 Config failed on a valid stack")
+		return
+	}
+	st, swa = src.t, src.wa
+	s := "not an int"
+	a := int64(3)
+	wrong := reflect.ValueOf(&struct {
+		A     *int64
+		Limit *string
+	}{&a, &s})
+	blocking := zzverif.Choose("blocking", 2) == 1
+	if blocking {
+		e := swa.BlockingReportNewValue(ctx, wrong)
+		zzverif.Assert(e != nil, "C07 a blocking report of a value that cannot be stacked returned nil")
+	} else {
+		e := swa.ReportNewValue(ctx, wrong)
+		zzverif.Assert(e == nil, "C08 ReportNewValue failed with a live context")
+	}
+	zzverif.Quiesce()
+	zzverif.Assert(d.View().A == 0 && *d.View().Limit == 5, "C04 a value that cannot be stacked changed the view")
+	want := 1
+	if delay && suppress {
+		want = 0
+	}
+	zzverif.Assert(nErr == want, "C09 OnWatchedError delivery for a stacking failure does not match the suppression rule (withheld only while delayed and suppressing)")
+	good := reflect.New(st.Type()).Elem()
+	four := int64(4)
+	good.FieldByName("A").Set(reflect.ValueOf(&four))
+	e2 := swa.BlockingReportNewValue(ctx, good)
+	zzverif.Assert(e2 == nil && d.View().A == 4, "C08 after a stacking failure new configs are no longer installed")
+	zzverif.Reached("c08-stackerr-end")
 }
